@@ -151,12 +151,12 @@ Inductive kind := KInt | KOpt | KFloat | KBool | KStr | KId | KList | KDna | KSt
 
 (* ---- which proposed repairs are in force (notes/C19.fix-N.diff).  All false = the code of /repo HEAD.
         Applying a fix to /repo = flipping the corresponding line to true. ---- *)
-Definition fix1_from_rows_empty : bool := false.     (* from_entry_tuples([]) builds cls.empty() *)
-Definition fix2_from_rows_nested : bool := false.    (* a nested-table field converts a list of entries *)
-Definition fix3_add_empty : bool := false.           (* add_fields accepts an empty, explicitly typed column *)
-Definition fix4_sort_strings : bool := false.        (* sort_by on StringArray / EncodedRaggedArray columns, stable *)
-Definition fix5_empty_dtype : bool := false.         (* an empty int / bool column keeps its declared dtype *)
-Definition fix6_flat_cells : bool := false.          (* a flat-encoded (strand) field rejects entries that are not one symbol *)
+Definition fix1_from_rows_empty : bool := true.     (* from_entry_tuples([]) builds cls.empty() *)
+Definition fix2_from_rows_nested : bool := true.    (* a nested-table field converts a list of entries *)
+Definition fix3_add_empty : bool := true.           (* add_fields accepts an empty, explicitly typed column *)
+Definition fix4_sort_strings : bool := true.        (* sort_by on StringArray / EncodedRaggedArray columns, stable *)
+Definition fix5_empty_dtype : bool := true.         (* an empty int / bool column keeps its declared dtype *)
+Definition fix6_flat_cells : bool := true.          (* a flat-encoded (strand) field rejects entries that are not one symbol *)
 Inductive fk := FB (k : kind) | FN (ks : list (list Z * kind)).
 Definition schema := list (list Z * fk).
 
